@@ -40,7 +40,8 @@ type leaf struct {
 }
 
 // leaves, simplest first. Local values 1,2 and global values 3,4 never coincide, so a read that
-// returns the wrong table's value is visible.
+// returns the wrong table's value is visible; the last leaf gives the global the SAME value as a local
+// assignment (a write that is skipped or merged because "the value is already there" must still bind).
 var leaves = []leaf{
 	{kRead, "x", 0, "rx"},
 	{kSet, "x", 1, "x=1"},
@@ -55,6 +56,7 @@ var leaves = []leaf{
 	{kSet, "y", 1, "y=1"},
 	{kGSet, "y", 3, "gy=3"},
 	{kUnset, "y", 0, "uy"},
+	{kGSet, "x", 1, "gx=1"},
 }
 
 var containers = []struct {
@@ -451,11 +453,11 @@ func replay(c *vlib.Ctx, w string) {
 func init() {
 	vlib.Register(&vlib.Check{
 		ID: "C11", Engine: "E3",
-		Rule:   "every op tree (program) with at most N nodes and nesting depth <= 2 over leaves {x=1, x=2, y=1 (local assignment), !set x|y, read $x|$y, $x used as an expression operand, $GLOBAL.x=3|4, $GLOBAL.y=3, read $GLOBAL.x, !global x} and containers {call of a function defined for that site, if{true}then{..}, %[1]->foreach{..}, out ${..}, switch{case{true}then{..}}} (quick N<=4; thorough N<=4, plus N=5 over the eight x-only leaves and N=6 over the four simplest leaves rx, x=1, gx=3, ux) is rendered as a murex program with strict-vars on, run in a fresh function scope with the global table reset, followed by top-level reads of x, y, GLOBAL.x, GLOBAL.y; every tagged read line on stdout (absent = undefined-variable failure) is compared with a scope-stack model: a call pushes an empty frame, blocks and sub-shells share the frame, one global table, lookup local then global, unset removes only the current frame's binding; non-trivial = the program has a container with a write (set/unset/global set/global unset) inside it",
+		Rule:   "every op tree (program) with at most N nodes and nesting depth <= 2 over leaves {x=1, x=2, y=1 (local assignment), !set x|y, read $x|$y, $x used as an expression operand, $GLOBAL.x=3|4|1 (1 = the value local assignments use), $GLOBAL.y=3, read $GLOBAL.x, !global x} and containers {call of a function defined for that site, if{true}then{..}, %[1]->foreach{..}, out ${..}, switch{case{true}then{..}}} (quick N<=4; thorough N<=4, plus N=5 over the eight x-only leaves and N=6 over the four simplest leaves rx, x=1, gx=3, ux) is rendered as a murex program with strict-vars on, run in a fresh function scope with the global table reset, followed by top-level reads of x, y, GLOBAL.x, GLOBAL.y; every tagged read line on stdout (absent = undefined-variable failure) is compared with a scope-stack model: a call pushes an empty frame, blocks and sub-shells share the frame, one global table, lookup local then global, unset removes only the current frame's binding; non-trivial = the program has a container with a write (set/unset/global set/global unset) inside it",
 		Run:    run,
 		Replay: replay,
 		Assumptions: []string{
-			"names {x,y}, local values {1,2}, global values {3,4}; environment variables x and y are unset",
+			"names {x,y}, local values {1,2}, global values {3,4} and 1 for x; environment variables x and y are unset",
 			"the exit status of `!set`/`!global` on an unbound name and the text of error messages are not asserted (statement silent); an undefined read is recognised by its missing stdout line",
 			"`out ${..}` prints the sub-shell's output with one trailing newline removed plus a newline (documented sub-shell behaviour), used only as observation channel",
 		},
